@@ -243,6 +243,9 @@ PROBES = [
     "(x>0)*(3)**(-2)",
     "min(x,2)**(-1)",
     "max(x,y,z)/min(3,4)",
+    "min(x)",
+    "max(x)-min(x)",
+    "max(y)+x*min(z)",
     "x<y<z",
     "x<y>z",
     "x>=y>=z",
@@ -316,6 +319,8 @@ def gen_expr(rng, names, depth):
         return "((%s)%s(%s)%s(%s))" % (a, ops[int(rng.integers(0, 6))], b, ops[int(rng.integers(0, 6))], gen_expr(rng, names, depth - 1))
     f = ["max", "min", "exp", "sqrt", "floor", "cos", "sin", "ln", "sdiv"][int(rng.integers(0, 9))]
     if f in ("max", "min"):
+        if rng.random() < 0.1:
+            return "%s(%s)" % (f, a)  # (the smallest / largest of one number is that number - elementwise for arrays)
         if rng.random() < 0.3:
             return "%s(%s,%s,%s)" % (f, a, b, gen_expr(rng, names, depth - 1))
         return "%s(%s,%s)" % (f, a, b)
